@@ -84,13 +84,23 @@ SweepParams ==
                 : mo \in ModeSet \cap PskModes}
     \cup UNION {{SP(su, mo, OneInfo, <<Leaf("pskd", 160), Leaf("pskidL" \o ToString(n), n)>>) : su \in Suites, n \in SweepLens \ {0}}
                 : mo \in ModeSet \cap PskModes}
-SenderParams ==
+\* P-256: RNG outputs whose first DeriveKeyPair candidate is out of range (see MC_Kem.tla RejectionWitnesses):
+\* the ephemeral key must come from the SECOND candidate
+WitnessRngs ==
+    {Cat(Lit(w), Leaf("rngspare", 70)) :
+        w \in {<<170, 170, 170, 170, 170, 170, 170, 170, 170, 170, 170, 170, 170, 170, 170, 170, 170, 170, 170, 170, 170, 170, 170, 170, 0, 0, 0, 0, 1, 249, 95, 97>>,
+               <<170, 170, 170, 170, 170, 170, 170, 170, 170, 170, 170, 170, 170, 170, 170, 170, 170, 170, 170, 170, 170, 170, 170, 170, 0, 0, 0, 0, 119, 87, 50, 23>>}}
+WitnessParams ==
+    {[SP(su, 0, OneInfo, OnePair(0)) EXCEPT !.rng = r] : su \in {x \in Suites : x[1] = KEM_P256}, r \in WitnessRngs}
+BaseSenderParams ==
     IF Shape = "sweep" THEN SweepParams ELSE
     IF Shape = "one"
     THEN {SP(su, mo, OneInfo, OnePair(mo)) : su \in Suites, mo \in ModeSet}
          \* deviation D2: a PSK mode with an EMPTY bundle is accepted by the library (and is not Base / Auth)
          \cup {SP(su, mo, OneInfo, <<<<>>, <<>>>>) : su \in Suites, mo \in ModeSet \cap PskModes}
     ELSE UNION {{SP(su, mo, inf, pp) : su \in Suites, inf \in InfoVals, pp \in PairsFor(mo)} : mo \in ModeSet}
+
+SenderParams == BaseSenderParams \cup (IF Shape = "one" THEN WitnessParams ELSE {})
 
 \* the receiver that agrees with sender parameters p
 Matching(p) ==
@@ -191,6 +201,9 @@ MC_ExportMenu == IF Vals = "long"
                  THEN {<<Leaf("ectx70000", 70000), 32>>, <<Leaf("ectx65536", 65536), 8160>>, <<<<>>, 70000>>, <<<<>>, 65536>>}
                  ELSE {<<<<>>, 32>>, <<Leaf("ectx", 11), 32>>, <<Lit(<<0>>), 16>>, <<Leaf("ectx65536", 65536), 32>>}
 
+\* counter jumps for contexts from real setups (C02: the nonce layout beyond the first few messages)
+MC_SeqMenu == {[seq |-> v, ovf |-> FALSE] : v \in {SmallSeq(65536), SmallSeq(16777215), <<0, 0, 0, 1, 0, 0, 0, 0>>,
+                                                  <<1, 2, 3, 4, 5, 6, 7, 8>>, <<255, 255, 255, 255, 255, 255, 255, 254>>}}
 NoMenu(x) == {}
 NoMenu2(x, y) == {}
 
@@ -252,8 +265,8 @@ PskSound ==
             /\ ctx[s].origin.psk = ctx[r].origin.psk /\ ctx[s].origin.pskId = ctx[r].origin.pskId
 
 (************************** ordering / emission *****************************)
-Rank(op) == CASE op = "init" -> 0 [] op = "setup_s" -> 1 [] op = "setup_r" -> 2 [] op = "seal" -> 3
-              [] op = "open" -> 4 [] op = "export" -> 5 [] op = "single_shot_seal" -> 6 [] OTHER -> 7
+Rank(op) == CASE op = "init" -> 0 [] op = "setup_s" -> 1 [] op = "setup_r" -> 2 [] op = "set_seq" -> 3 [] op = "seal" -> 4
+              [] op = "open" -> 5 [] op = "export" -> 6 [] op = "single_shot_seal" -> 7 [] OTHER -> 8
 InOrder == ~Ordered \/ Rank(last.op) <= Rank(last'.op)
 
 \* C10 / C13: what a failed setup looks like
